@@ -45,6 +45,8 @@ Applicable(o, kind, mode) ==
     /\ ~(o = "spec" /\ mode = "legacy")
 
 VARIABLES phase,      \* "pick" (kind and mode chosen) -> "done" (a complete configuration; these are the cases)
+                      \* -> "again" (the SAME statement object executed a second time under another profile /
+                      \*    changed session defaults: resolution is stateless, the statement keeps no memory)
           kind, mode,
           set,        \* set[o] = set of layers of option o that are configured (never contains "default")
           callNone,   \* the per-call timeout is given and is None (= wait forever); only meaningful with "call" set
@@ -90,11 +92,20 @@ Configure ==
     /\ (callNone' => "call" \in set'["timeout"])
     /\ winner' = [o \in AllOpts |-> First(o, kind, set'[o])]
 
-Next == Configure
+\* Executing the same statement object again under a different profile (profile modes) or after the
+\* session defaults were changed (legacy mode): the layers that are set are the same, the "level" layer now
+\* holds the other profile's values; nothing from the first execution may stick to the statement.
+Reexecute ==
+    /\ phase = "done"
+    /\ phase' = "again"
+    /\ UNCHANGED <<kind, mode, set, callNone, winner>>
+
+Next == Configure \/ Reexecute
 Spec == Init /\ [][Next]_vars
 
 -----------------------------------------------------------------------------
 \* C46 on the specification itself
+Stateless == [][phase = "done" /\ phase' = "again" => winner' = winner /\ set' = set]_vars
 StatementWins == \A o \in StmtOpts : "stmt" \in set[o] => winner[o] = "stmt"
 CallWins      == "call" \in set["timeout"] => winner["timeout"] = "call"
 PreparedNext  == \A o \in StmtOpts : ("prepared" \in set[o] /\ "stmt" \notin set[o]) => winner[o] = "prepared"
